@@ -13,7 +13,7 @@ Inductive ckind := KWrite | KCat | KCatTok.
 Inductive fkind := FNone | FBefore | FPartial | FAfterFull | FOmit | FSignal.
 
 Record inport := { ip_name : str; ip_ups : list (nat * str) }.
-Inductive parsrc := PUp (n : nat) | PVals (vs : list str).
+Inductive parsrc := PUp (n : nat) | PVals (vs : list str) | PNone.   (* PNone: the parameter port is left unconnected *)
 Record outport := { op_name : str; op_pat : option str }.
 
 Record proc := {
@@ -167,7 +167,9 @@ Definition run_one (p : proc) (w : world) (ins : list (str * item)) (pars : list
   if existsb (fun o => match snd o with Fail => true | Ok q => negb (path_valid q) end) outs_r
   then (mk TInvalid [] [] Fail, w) else
   let outs := map (fun o => (fst o, (out_streaming (p_pattern p) (fst o), match snd o with Ok q => q | Fail => [] end))) outs_r in
-  let e := {| e_in := map (fun kv => (fst kv, match snd kv with IPath q => q | ISub _ => s2l "carrier" end)) ins;
+  (* an in-IP that was forwarded by a streaming out-port is named by its FIFO in the command *)
+  let streamed := fun q => match fs_get (w_vfs w) q with Some _ => true | None => false end in
+  let e := {| e_in := map (fun kv => (fst kv, match snd kv with IPath q => if streamed q then q ++ s2l ".fifo" else q | ISub _ => s2l "carrier" end)) ins;
               e_sub := flat_map (fun kv => match snd kv with ISub ms => [(fst kv, ms)] | IPath _ => [] end) ins;
               e_out := map (fun o => (fst o, snd (snd o))) outs; e_par := pars; e_tag := tags |} in
   let cmd := format_command (p_pattern p) e in
@@ -206,7 +208,7 @@ Record acc := { a_streams : streams; a_world : world; a_tasks : list trec; a_fai
 Definition eval_proc (idx : nat) (p : proc) (a : acc) : acc :=
   let ss := a_streams a in
   let incols := map (fun i => flat_map (fun u => st_get ss (fst u) (snd u)) (ip_ups i)) (p_ins p) in
-  let parcols := map (fun q => match snd q with PUp n => map IPath (flat_map item_paths (st_get ss n (s2l "out"))) | PVals vs => map IPath vs end) (p_pars p) in
+  let parcols := map (fun q => match snd q with PUp n => map IPath (flat_map item_paths (st_get ss n (s2l "out"))) | PVals vs => map IPath vs | PNone => [] end) (p_pars p) in
   let n := min_len (incols ++ parcols) in
   let inrows := transpose_n (IPath []) n incols in
   let parrows := transpose_n (IPath []) n parcols in
@@ -232,7 +234,7 @@ Definition ups_of (n : node) : list nat :=
   | NSrc _ _ | NPSrc _ _ => []
   | NS2S _ u _ => [u]
   | NProc p => flat_map (fun i => map fst (ip_ups i)) (p_ins p)
-               ++ flat_map (fun q => match snd q with PUp n => [n] | PVals _ => [] end) (p_pars p)
+               ++ flat_map (fun q => match snd q with PUp n => [n] | _ => [] end) (p_pars p)
   end.
 Fixpoint closure (fuel : nat) (nodes : list node) (sel : list nat) : list nat :=
   match fuel with
@@ -247,6 +249,7 @@ Definition selected (nodes : list node) (targets : list nat) : list nat :=
 Definition node_ready (n : node) : bool :=
   match n with
   | NProc p => forallb (fun i => match ip_ups i with [] => false | _ => true end) (p_ins p)
+               && forallb (fun q => match snd q with PNone => false | _ => true end) (p_pars p)
   | _ => true
   end.
 
